@@ -151,6 +151,13 @@ func genSessions(g *vh.Gen) {
 		// the store / discard rule still decides what is stored
 		g.Emit(g.Pick("smtp", "smtp", "smtp", "smtpdefer", "smtpdefer", "smtpallow"), append(c.Fields(), vh.H(stream))...)
 	}
+	// one destination named through a stored and a discarded domain in one transaction, in every order
+	gs := g.Side("c05-collision")
+	for i := 0; i < g.N(40, 1500); i++ {
+		c, pool := smtpd.GenCfg(gs, smtpd.Opts{})
+		stream := smtpd.GenCollision(gs, &c, pool)
+		gs.Emit(gs.Pick("smtp", "smtp", "smtpdefer", "smtpallow"), append(c.Fields(), vh.H(stream))...)
+	}
 }
 
 // genAsm: the same kind of sessions against the ASSEMBLED server (child process: config.Process from the
